@@ -469,3 +469,103 @@ def call_chain(n):
             n = None
             break
     return names, n
+
+
+def linear(n, sym):
+    """linear form {symbol: coeff, '': const} of an integer expression, or None. sym(node) names a symbol or returns None."""
+    n = skip_copies(n)
+    if not isinstance(n, dict):
+        return None
+    s = sym(n)
+    if s is not None:
+        return {s: 1}
+    k = n.get("k")
+    if k in ("int", "char"):
+        return {"": n["v"]}
+    if "cv" in n and k not in ("binop", "unop"):
+        return {"": n["cv"]}
+    if k == "cast":
+        return linear(n.get("e"), sym)
+    if k == "unop" and n.get("op") in ("-", "+"):
+        a = linear(n.get("e"), sym)
+        if a is None:
+            return None
+        return {x: (-c if n["op"] == "-" else c) for x, c in a.items()}
+    if k == "binop" and n.get("op") in ("+", "-"):
+        a, b = linear(n.get("lhs"), sym), linear(n.get("rhs"), sym)
+        if a is None or b is None:
+            return None
+        out = dict(a)
+        for x, c in b.items():
+            out[x] = out.get(x, 0) + (c if n["op"] == "+" else -c)
+        return {x: c for x, c in out.items() if c != 0 or x == ""}
+    if k == "binop" and n.get("op") == "*":
+        a, b = linear(n.get("lhs"), sym), linear(n.get("rhs"), sym)
+        if a is None or b is None:
+            return None
+        if set(a) <= {""}:
+            return {x: c * a.get("", 0) for x, c in b.items()}
+        if set(b) <= {""}:
+            return {x: c * b.get("", 0) for x, c in a.items()}
+        return None
+    if "cv" in n:
+        return {"": n["cv"]}
+    return None
+
+
+def comparison_form(n, sym):
+    """(linear form f, op) meaning `f op 0` for a comparison node, op in > >= == != (normalised), or None"""
+    n = skip_copies(n)
+    if not (isinstance(n, dict) and n.get("k") == "binop" and n.get("op") in ("<", ">", "<=", ">=", "==", "!=")):
+        return None
+    a, b = linear(n.get("lhs"), sym), linear(n.get("rhs"), sym)
+    if a is None or b is None:
+        return None
+    f = dict(a)
+    for x, c in b.items():
+        f[x] = f.get(x, 0) - c
+    op = n["op"]
+    if op in ("<", "<="):
+        f = {x: -c for x, c in f.items()}
+        op = ">" if op == "<" else ">="
+    if op == ">":  # integers: f > 0  <=>  f - 1 >= 0
+        f[""] = f.get("", 0) - 1
+        op = ">="
+    return {x: c for x, c in f.items() if c != 0 or x == ""}, op
+
+
+def comparisons_in(n):
+    return [x for x in walk(n) if x.get("k") == "binop" and x.get("op") in ("<", ">", "<=", ">=", "==", "!=")]
+
+
+def numeric_atom(fn, leaf):
+    """atom for Graph.projector that evaluates integer/boolean conditions under a concrete assignment of symbols"""
+    def atom(n):
+        if n.get("k") in ("binop",) and n.get("op") in ("<", ">", "<=", ">=", "==", "!="):
+            v = eval_int(n, leaf)
+            return None if v is None else bool(v)
+        v = leaf(n)
+        if v is not None and n.get("k") in ("ref", "member", "call"):
+            return bool(v)
+        return None
+    return atom
+
+
+REMOVAL_CALLS = ("removeFirst", "removeLast", "takeFirst", "takeLast", "pop_front", "pop_back", "removeAt", "takeAt", "erase", "removeOne", "removeAll", "clear")
+
+
+def container_origin(fn, n):
+    """initialiser of a local container whose only later mutations remove elements (so every element comes from it)"""
+    n = skip_copies(n)
+    if not (isinstance(n, dict) and n.get("k") == "ref" and n.get("dk") == "local"):
+        return n
+    dn, var = local_var(fn, n["decl"])
+    if var is None or not isinstance(var.get("init"), dict):
+        return n
+    for r in refs_to(fn, n["decl"]):
+        if assignment_target(fn, r)[0] is not None:
+            return n
+        wk = write_kind(fn, r)
+        if wk and not (wk.startswith("call(") and wk[5:-1] in REMOVAL_CALLS + NONMUTATING_NONCONST):
+            return n
+    return skip_copies(var["init"])
